@@ -5,7 +5,7 @@
 From Coq Require Import List Ascii String Bool Arith Lia.
 Import ListNotations.
 Open Scope char_scope.
-Definition str := list ascii.
+Notation str := (list ascii).
 Definition s (x : string) : str := list_ascii_of_string x.
 Definition LF : ascii := "010".
 Definition TAB : ascii := "009".
